@@ -10,6 +10,7 @@
         :95-118   InitializeComponent
         :137-171  applyPostProcessBeforeInitialization / applyPostProcessAfterInitialization
         :213-231  ResolveAfterInstantiation
+        :178-211  ResolveBeforeInstantiation / applyPostProcessBeforeInstantiation (factory.go:164-190 createComponent)
         :232-246  GetEarlyBeanReference (called from factory.go:194-201, 283-296 for a singleton in a circular reference)
     configure/configure.go:28-52                    AddLoaders / SetLoaders / Initialize (several times on one Configure)
 
@@ -347,6 +348,103 @@ def confRegistered : List (ConfOp α) → List α → List (List α)
   | .set ls :: rest, _ => confRegistered rest ls
   | .add ls :: rest, cur => confRegistered rest (cur ++ ls)
   | .init :: rest, cur => cur :: confRegistered rest cur
+
+end
+
+/-! ### instances supplied before instantiation (the short-circuit of createComponent) -/
+section
+variable {α : Type}
+
+/-- specification vocabulary: the callback's answer ends the before-instantiation chain (an error or a component) -/
+def Res.answers {β : Type} : Res β → Bool
+  | .nil => false
+  | _ => true
+
+/-- applyPostProcessBeforeInstantiation (delegate:193-211): walks ALL of `componentPostProcessors`, the type assertion to
+    InstantiationAwareComponentPostProcessor is inside the loop; the first error and the first non-nil component end it.
+    `bi p` = what `p.PostProcessBeforeInstantiation(meta, name)` answers.  Result: (processors asked, answer) -/
+def applyBeforeInstantiation {β : Type} (isInst : α → Bool) (bi : α → Res β) : List α → List α → List α × Res β
+  | [], log => (log, .nil)
+  | p :: rest, log =>
+    if isInst p then
+      match bi p with
+      | .err => (log ++ [p], .err)
+      | .val c => (log ++ [p], .val c)
+      | .nil => applyBeforeInstantiation isInst bi rest (log ++ [p])
+    else applyBeforeInstantiation isInst bi rest log
+
+/-- ResolveBeforeInstantiation (delegate:178-191): nobody is asked without an InstantiationAware processor (`hasInst`,
+    the flag set at registration, delegate:25-33); a component handed out by the before-instantiation chain goes through
+    applyPostProcessAfterInitialization (and nothing else), whose answer is returned.
+    Result: (before-instantiation log, after-initialization log, answer: `.nil` = no short-circuit) -/
+def resolveBeforeInstantiation {β : Type} (hasInst : Bool) (isInst : α → Bool) (bi : α → Res β)
+    (after : α → β → Res β) (procs : List α) : List α × List α × Res β :=
+  if hasInst then
+    match applyBeforeInstantiation isInst bi procs [] with
+    | (lb, .err) => (lb, [], .err)
+    | (lb, .nil) => (lb, [], .nil)
+    | (lb, .val c) =>
+      let r := applyAfter after procs c []
+      (lb, r.1, match r.2 with | none => .err | some c' => .val c')
+  else ([], [], .nil)
+
+/-- the callbacks one component creation makes -/
+structure CompLog (α : Type) where
+  binst : List α := []         -- PostProcessBeforeInstantiation
+  inst : List (Ev α) := []     -- PostProcessAfterInstantiation / PostProcessProperties
+  before : List α := []        -- PostProcessBeforeInitialization
+  after : List α := []         -- PostProcessAfterInitialization
+
+/-- createComponent (factory.go:164-190) for a component without injection points: ResolveBeforeInstantiation first; a
+    non-nil answer IS the component (factory.go:174-180; wrapped into a proxy Meta when it is not the registered
+    instance) and doCreateComponent is skipped; otherwise populateComponent (→ ResolveAfterInstantiation, factory.go:252-256)
+    and InitializeComponent (factory.go:207).  `raw` = the registered instance.  Result: (log, `none` = error) -/
+def createComponent {β : Type} (hasInst : Bool) (isInst : α → Bool) (bi : α → Res β) (instRes : α → Step)
+    (before after : α → β → Res β) (initFails : β → Bool) (procs : List α) (raw : β) : CompLog α × Option β :=
+  match resolveBeforeInstantiation hasInst isInst bi after procs with
+  | (lb, la, .err) => ({ binst := lb, after := la }, none)
+  | (lb, la, .val c) => ({ binst := lb, after := la }, some c)
+  | (lb, _, .nil) =>
+    let ri := resolveAfterInstantiation isInst instRes procs
+    if ri.2 then ({ binst := lb, inst := ri.1 }, none) else
+    let ic := initializeComponent before after initFails procs raw
+    ({ binst := lb, inst := ri.1, before := ic.1, after := ic.2.1 }, ic.2.2)
+
+/-- the loop of Refresh (factory.go:106-112) over the watched components `cs` (in name order): each is created once,
+    the first failing creation ends the loop.  `bi c` / `raw c`: the before-instantiation answers for component c and
+    its registered instance.  Result: (one log and final instance per component reached, error?) -/
+def refreshLoop {β γ : Type} (hasInst : Bool) (isInst : α → Bool) (bi : γ → α → Res β) (instRes : α → Step)
+    (before after : α → β → Res β) (initFails : β → Bool) (procs : List α) (raw : γ → β) :
+    List γ → List (CompLog α × Option β) → List (CompLog α × Option β) × Bool
+  | [], acc => (acc, false)
+  | c :: rest, acc =>
+    let r := createComponent hasInst isInst (bi c) instRes before after initFails procs (raw c)
+    match r.2 with
+    | none => (acc ++ [r], true)
+    | some _ => refreshLoop hasInst isInst bi instRes before after initFails procs raw rest (acc ++ [r])
+
+/-- what a start with several watched components shows -/
+structure StartLogB (α β : Type) where
+  loads : List (Ev α) := []
+  comps : List (CompLog α × Option β) := []
+  runs : List α := []
+  err : Bool := false
+
+/-- `start` for several watched components without injection points, with processors that may supply instances from
+    PostProcessBeforeInstantiation (App.run, app.go:78-108: configuration → registration of the processors → Refresh →
+    callRunners, each stage returning on error) -/
+def startB {β γ : Type} (sort : (α → α → Bool) → List α → List α) (part : α → Part)
+    (loadRes : α → Step) (resolve : α → Option α) (hasInst : Bool) (isInst : α → Bool) (bi : γ → α → Res β)
+    (instRes : α → Step) (before after : α → β → Res β) (runFails : α → Bool) (raw : γ → β) (cs : List γ)
+    (loaders procs runners : List α) : StartLogB α β :=
+  let lc := loadConfigure sort part loadRes loaders
+  if lc.2 then { loads := lc.1, err := true } else
+  let reg := invokeRegister sort part resolve procs []
+  if reg.2 then { loads := lc.1, err := true } else
+  let rf := refreshLoop hasInst isInst bi instRes before after (fun _ => false) reg.1 raw cs []
+  if rf.2 then { loads := lc.1, comps := rf.1, err := true } else
+  let cr := callRunners sort part runFails runners
+  { loads := lc.1, comps := rf.1, runs := cr.1, err := cr.2 }
 
 end
 
